@@ -22,6 +22,8 @@ FLT_DT = {'float16': (11, -24, 16), 'float32': (24, -149, 128), 'float64': (53, 
 SCALAR_CARRIERS = ['pyint', 'pyfloat'] + ['np:' + d for d in list(INT_DT) + list(FLT_DT)]
 ARRAY_CARRIERS = ['arr:' + d for d in ('int8', 'int32', 'int64', 'uint16', 'uint64', 'float32', 'float64')] + ['list', 'tuple', 'nested', 'listf']
 ENTRIES = ('ctor', 'call', 'set_val', 'setitem')
+# stores into an object with a history: it held a value in another format and was re-formatted by one of the spellings of resize / like
+HISTORY_ENTRIES = ('hist:resize', 'hist:resize_nint_word', 'hist:resize_nint_frac', 'hist:resize_dtype', 'hist:like', 'hist:raw_then_value')
 BIG_EXPS = (-1074, -600, -60, -30, -1, 0, 9, 10, 11, 12, 40, 62, 63, 64, 65, 100, 511, 960, 970)
 
 
@@ -63,6 +65,12 @@ def configs(tier, seed):
             es = BIG_EXPS if tier == 'thorough' else C.pick(BIG_EXPS, 2, rng)
             for E in es:
                 out.append(_cfg(s, n, f, r, 'saturate', 'pyfloat', rng.choice(ENTRIES) if tier == 'thorough' else 'set_val', 64, big=E))
+    # objects with a history (cached attributes must follow the format)
+    hist = [(sg, n, f) for (sg, n, f) in C.formats_q() if n <= 33]
+    for (sg, n, f) in C.pick(hist, 40 if tier == 'quick' else len(hist), rng):
+        for ent in (C.pick(HISTORY_ENTRIES, 2, rng) if tier == 'quick' else HISTORY_ENTRIES):
+            (r, o) = rng.choice(C.modes())
+            out.append(_cfg(sg, n, f, r, o, rng.choice(('pyfloat', 'pyint')), ent))
     # arrays and lists mixing one element of any magnitude with ordinary ones (the huge element must not change how the others are rounded)
     for (s, n, f) in C.pick(bigf, 12 if tier == 'quick' else 60, rng):
         for r in C.pick(SP.ROUNDINGS, 2, rng) if tier == 'quick' else SP.ROUNDINGS:
@@ -154,6 +162,25 @@ def run(F, cfg, inp):
         x(v)
     elif ent == 'set_val':
         x = F.Fxp(None, s, n, f, **kw)
+        x.set_val(v)
+    elif ent.startswith('hist:'):
+        # a first life in another format (and a stored value), then the re-formatting, then the store under test
+        x = F.Fxp(1.25, not s if n > 1 else s, n + 3, f + 2, **kw)
+        x.set_val(-0.5 if x.signed else 0.75)
+        h = ent[5:]
+        if h == 'resize':
+            x.resize(s, n, f)
+        elif h == 'resize_nint_word':
+            x.resize(signed=s, n_word=n, n_int=n - f - int(s))
+        elif h == 'resize_nint_frac':
+            x.resize(signed=s, n_frac=f, n_int=n - f - int(s))
+        elif h == 'resize_dtype':
+            x.resize(dtype=C.fmt_str(s, n, f))
+        elif h == 'like':
+            x = x.like(F.Fxp(None, s, n, f, **kw))
+        else:
+            x.resize(s, n, f)
+            x.set_val(1, raw=True)
         x.set_val(v)
     else:
         z = C.nested([0] * (2 * C.size_of(shape)), (2,) + shape)
